@@ -119,8 +119,11 @@ def rule_arity(t, rep, rid):
             rep.ok(rid, v, where, sample={"builtin": v, "arity": ar, "call_reads": used, "cost_args": ncost, "aiken_arity": sig["arity"], "force_count": t.force[v][0], "aiken_generics": sig["generics"]})
 
 
-def rule_sig(t, rep, rid):
-    """position by position, the evaluator's unwrapper matches the Aiken parameter type"""
+def rule_sig(t, rep, rid, oracle_wrong=None):
+    """position by position, the evaluator's unwrapper matches the Aiken parameter type.
+    oracle_wrong: {"Builtin#argindex": reason} rows where the *Aiken signature* is the side at fault; the property using
+    the evaluator as subject treats them as reviewed, the property about the type checker (C06) does not pass this table."""
+    oracle_wrong = oracle_wrong or {}
     sh = t.sh
     for v in t.variants:
         if v not in t.call or v not in t.aiken:
@@ -156,7 +159,10 @@ def rule_sig(t, rep, rid):
             if sc.startswith("?") or uc.startswith("?"):
                 bad.append("argument %d: unrecognised type/unwrapper (%s / %s)" % (i, sc, uc))
             elif not compatible(sc, uc):
-                bad.append("argument %d: Aiken types it %s but the evaluator reads it as %s" % (i, sc, uc))
+                if "%s#%d" % (v, i) in oracle_wrong:
+                    rows[-1]["reviewed"] = oracle_wrong["%s#%d" % (v, i)]
+                else:
+                    bad.append("argument %d: Aiken types it %s but the evaluator reads it as %s" % (i, sc, uc))
         if bad:
             rep.bad(rid, v, where, "; ".join(bad), sample={"builtin": v, "rows": rows})
         else:
